@@ -7,7 +7,8 @@ from ..absval import abstractor
 from ..engine import SCHED, SEQ, Engine
 from ..model import AnalysisError, dotted, norm
 from ..report import Report
-from .common import arg_of, av, calls_to, one_call, own_nodes, returns
+from .. import sym
+from .symutil import S, all_of, any_lit, arg, has, is_, mentions, sh
 
 EXPLANATION = (
     "FLOW/PASS over the phase-reference bookkeeping: _PhaseTracker._format is `phi % (2*pi)` and is applied at every write of the phase list (constructor and __setitem__); increment_phase writes "
@@ -16,161 +17,195 @@ EXPLANATION = (
     "runs for each target and _phase_shift(post_phase_shift [- drift], *targets, basis=basis) is applied to the same targets and basis; _phase_shift increments every target id; multi-target pulses/targets with "
     "different references are rejected; Pulse.__init__ reduces phase and post_phase_shift modulo 2*pi. NOT decided: the emulated z-rotation (runtime physics)."
 )
-ASSUMPTIONS = ["def-use provenance inside one function plus one call level"]
+ASSUMPTIONS = ["formulas and guards are matched on the symbolic normal form (pstatic/sym.py)", "the order of two calls is the order in which the symbolic evaluation meets them (program order on every path)"]
 
 BR = "pulser.sequence._basis_ref"
 
 
-def _is_two_pi(e: ast.AST) -> bool:
-    s = norm(e).replace(" ", "")
-    return s in ("2*np.pi", "np.pi*2", "2*numpy.pi", "2*math.pi", "2*pi", "(2*np.pi)")
+MOD2PI = "Q_x % (2 * Q_np.pi)"
+
+
+def _stores_to(Sf, fn_short: str, attr: str) -> list:
+    """(value term, logged entry) for every write into ``self.<attr>`` (assignment, item store, insert/append)."""
+    out = []
+    for l in Sf.log:
+        if l.fn != fn_short:
+            continue
+        if l.kind == "store" and l.target is not None:
+            t = l.target
+            if t == ("attr", ("name", "self"), attr):
+                vals = l.value[1:] if l.value is not None and l.value[0] == "list" else (l.value,)
+                out += [(v, l) for v in vals]
+            elif t[0] == "idx" and t[1] == ("attr", ("name", "self"), attr):
+                out.append((l.value, l))
+        elif l.kind == "call" and l.target is not None and l.target[0] == "attr" and l.target[2] in ("insert", "append") and l.target[1] == ("attr", ("name", "self"), attr):
+            out.append((l.value[2][-1], l))
+    return out
 
 
 def run(E: Engine, rep: Report, tier: str) -> dict:
     pt = E.cls(BR + "._PhaseTracker")
-    qr = E.cls(BR + "._QubitRef")
     fmt = E.method(BR + "._PhaseTracker", "_format")
     # ------------------------------------------------------------ _format
-    ok = False
-    for r in returns(fmt):
-        v = r.value
-        if isinstance(v, ast.BinOp) and isinstance(v.op, ast.Mod) and _is_two_pi(v.right) and norm(v.left) == fmt.params[1]:
-            ok = True
-    rep.check(ok, "FLOW", "_PhaseTracker._format|mod-2pi", "phase stored modulo 2*pi", "_PhaseTracker._format is no longer `phi % (2*pi)`", E.where(fmt))
-    # every write of _phases stores a formatted value
+    r = S(E, fmt).ret
+    m = is_(r, MOD2PI)
+    rep.check(m is not None and m["Q_x"] == ("name", fmt.params[1]), "FLOW", "_PhaseTracker._format|mod-2pi", "phase stored modulo 2*pi", f"_PhaseTracker._format is no longer `phi % (2*pi)`: {sh(r)}", E.where(fmt))
+    # every write of _phases stores a value reduced modulo 2*pi
     n_w = 0
     for mname in ("__init__", "__setitem__"):
         f = E.method(BR + "._PhaseTracker", mname)
-        for n in own_nodes(f):
-            val = None
-            if isinstance(n, (ast.Assign, ast.AnnAssign)):
-                t = n.targets[0] if isinstance(n, ast.Assign) else n.target
-                if "_phases" in norm(t):
-                    val = n.value.elts[0] if isinstance(n.value, ast.List) and n.value.elts else n.value
-            if isinstance(n, ast.Call) and isinstance(n.func, ast.Attribute) and n.func.attr in ("insert", "append") and "_phases" in norm(n.func.value):
-                val = n.args[-1]
-            if val is None:
-                continue
+        for v, l in _stores_to(S(E, f), f.short, "_phases"):
             n_w += 1
-            v = av(E, f, val)
-            rep.check(any(r.endswith("_format()") for r in v.roots), "FLOW", f"_PhaseTracker.{mname}|stores-formatted|{n_w}", "stored phase passed through _format", f"`{norm(n)[:70]}` stores a phase that did not pass _format (mod 2*pi)", E.where(f, n))
+            rep.check(is_(v, MOD2PI) is not None, "FLOW", f"_PhaseTracker.{mname}|stores-formatted|{n_w}", "stored phase is reduced modulo 2*pi", f"`{sh(v)}` is stored in _phases without being reduced modulo 2*pi (_format)", E.where(f, l.node))
     if n_w < 3:
         rep.error(f"only {n_w} writes of _PhaseTracker._phases found (expected 3)")
     # times and phases are inserted at the same index
     si = E.method(BR + "._PhaseTracker", "__setitem__")
-    ins = [n for n in own_nodes(si) if isinstance(n, ast.Call) and isinstance(n.func, ast.Attribute) and n.func.attr == "insert"]
-    rep.check(len(ins) == 2 and norm(ins[0].args[0]) == norm(ins[1].args[0]), "FLOW", "_PhaseTracker.__setitem__|paired-insert", "times and phases inserted at the same index", "times and phases are no longer inserted at the same index", E.where(si))
+    ins = [l for l in S(E, si).calls("insert") if l.fn == si.short]
+    on = {l.target[1][2]: arg(l, 0) for l in ins if l.target[1][0] == "attr"}
+    rep.check(set(on) == {"_times", "_phases"} and on["_times"] == on["_phases"] and len(ins) == 2, "FLOW", "_PhaseTracker.__setitem__|paired-insert", "times and phases inserted at the same index", f"times and phases are no longer inserted at the same index: {[(k, sh(v, 60)) for k, v in on.items()]}", E.where(si))
     # increment_phase
     inc = E.method(BR + "._QubitRef", "increment_phase")
-    ok = False
-    for n in own_nodes(inc):
-        if isinstance(n, ast.Assign) and isinstance(n.targets[0], ast.Subscript):
-            t = n.targets[0]
-            v = av(E, inc, n.value)
-            ok = norm(t.value) == "self.phase" and norm(t.slice) == "self.last_used" and "Add" in v.tags and "self.phase.last_phase" in v.roots and "phi" in v.roots and not ({"Sub", "Mult"} & v.tags)
-    rep.check(ok, "FLOW", "_QubitRef.increment_phase|additive-at-last-used", "phase[last_used] = last_phase + phi", "increment_phase is no longer `self.phase[self.last_used] = self.phase.last_phase + phi`", E.where(inc))
+    st = [l for l in S(E, inc).logged("store") if l.fn == inc.short]
+    ok = len(st) == 1 and st[0].target == sym.Pattern("self.phase[self.last_used]").term and is_(st[0].value, "self.phase.last_phase + phi") is not None
+    rep.check(ok, "FLOW", "_QubitRef.increment_phase|additive-at-last-used", "phase[last_used] = last_phase + phi", f"increment_phase is no longer `self.phase[self.last_used] = self.phase.last_phase + phi`: {[(sh(l.target, 50), sh(l.value, 80)) for l in st]}", E.where(inc))
     ulu = E.method(BR + "._QubitRef", "update_last_used")
-    src = norm(ulu.node)
-    rep.check("max(self.last_used, new_t)" in src or "max(new_t, self.last_used)" in src, "FLOW", "_QubitRef.update_last_used|monotone", "last_used = max(last_used, new_t)", "update_last_used is no longer monotone (max)", E.where(ulu))
+    st = [l for l in S(E, ulu).logged("store") if l.fn == ulu.short and l.target == ("attr", ("name", "self"), "last_used")]
+    rep.check(len(st) == 1 and is_(st[0].value, "max(self.last_used, new_t)") is not None, "FLOW", "_QubitRef.update_last_used|monotone", "last_used = max(last_used, new_t)", "update_last_used is no longer monotone (max)", E.where(ulu))
     lp = [f for f in pt.methods.get("last_phase", [])][0]
     lt = [f for f in pt.methods.get("last_time", [])][0]
-    rep.check(norm(returns(lp)[0].value) == "self._phases[-1]" and norm(returns(lt)[0].value) == "self._times[-1]", "FLOW", "_PhaseTracker|last-entries", "last_phase/last_time read the last entries", "last_phase/last_time no longer read the last entry", E.where(lp))
+    rep.check(is_(S(E, lp).ret, "self._phases[-1]") is not None and is_(S(E, lt).ret, "self._times[-1]") is not None, "FLOW", "_PhaseTracker|last-entries", "last_phase/last_time read the last entries", "last_phase/last_time no longer read the last entry", E.where(lp))
 
     # ------------------------------------------------------ Sequence._add
     add = E.method(SEQ, "_add")
     vadj = E.method(SEQ, "_validate_and_adjust_pulse")
-    ap = E.method(SCHED, "add_pulse")
     ps = E.method(SEQ, "_phase_shift")
-    c_v = [e.node for _n, e in calls_to(E, add, vadj) if len(e.node.args) >= 3 or any(k.arg == "phase_ref" for k in e.node.keywords)]
-    if not c_v:
-        rep.violation("FLOW", "Sequence._add|phase_ref-passed", "_add no longer passes a phase reference to _validate_and_adjust_pulse", E.where(add))
-    else:
-        pr = arg_of(c_v[0], vadj, "phase_ref")
-        v = av(E, add, pr)
-        rep.check(any(r.endswith(".phase.last_phase.pop()") or r.endswith(".phase.last_phase") for r in v.roots) and any("_last().targets" in r for r in v.roots), "FLOW", "Sequence._add|phase_ref-from-targets-last_phase", "phase_ref = last_phase of the targets of the channel's last slot", f"phase_ref provenance changed: {v.show()[:200]}", E.where(add, c_v[0]))
+    Sadd = S(E, add)
+    own = [l for l in Sadd.log if l.fn == add.short]
+    c_v = [l for l in own if l.kind == "call" and l.target == ("attr", ("name", "self"), "_validate_and_adjust_pulse")]
+    c_ap = [l for l in own if l.kind == "call" and l.target is not None and l.target[0] == "attr" and l.target[2] == "add_pulse"]
+    if not c_v or not c_ap:
+        raise AnalysisError("anchor: _add no longer calls _validate_and_adjust_pulse / add_pulse")
+    ch_p = ("name", "channel")
+    last = sym.Pattern("self._schedule[channel][-1]").term
+    basis = ("attr", ("attr", ("idx", ("attr", ("name", "self"), "_schedule"), ch_p), "channel_obj"), "basis")
+
+    def ref_comp(t, field: str):
+        """t is a comprehension over the last slot's targets of _basis_ref[basis][q].phase.<field>."""
+        if t is None or t[0] != "comp" or len(t[3]) != 1:
+            return False
+        m = is_(t[2], f"self._basis_ref[Q_b][Q_q].phase.{field}") or is_(t[2], f"float(self._basis_ref[Q_b][Q_q].phase.{field})")
+        return m is not None and m["Q_b"] == basis and t[3][0][0] == ("attr", last, "targets") and m["Q_q"] == ("elem", t[3][0][0])
+
+    pr = arg(c_v[-1], 2, "phase_ref")
+    m = has(pr, "Q_c.pop()")
+    rep.check(m is not None and ref_comp(m["Q_c"], "last_phase"), "FLOW", "Sequence._add|phase_ref-from-targets-last_phase", "phase_ref = last_phase of the targets of the channel's last slot (in the channel's basis)", f"phase_ref is no longer the common last_phase of the last slot's targets in the channel's basis: {sh(pr, 220)}", E.where(add, c_v[-1].node))
     # inside _validate_and_adjust_pulse: returned pulse phase = pulse.phase + phase_ref
-    ok = False
-    for r in returns(vadj):
-        if isinstance(r.value, ast.Call) and len(r.value.args) >= 3:
-            v = av(E, vadj, r.value.args[2])
-            ok = "Add" in v.tags and "pulse.phase" in v.roots and "phase_ref" in v.roots and "Sub" not in v.tags
-    rep.check(ok, "FLOW", "_validate_and_adjust_pulse|phase=pulse.phase+phase_ref", "scheduled phase = programmed phase + reference", "the returned pulse's phase is no longer pulse.phase + phase_ref", E.where(vadj))
-    c_ap = one_call(E, add, ap)
-    pb = arg_of(c_ap, ap, "phase_barrier_ts")
-    v = av(E, add, pb)
-    rep.check(any(r.endswith(".phase.last_time") for r in v.roots) and any("_last().targets" in r for r in v.roots), "FLOW", "Sequence._add|barriers-from-targets-last_time", "phase barriers = last_time of the targets", f"phase barriers provenance changed: {v.show()[:200]}", E.where(add, c_ap))
+    rv = S(E, vadj).ret
+    pulses = [c for c in sym.subterms(rv) if c[0] == "call" and c[1] == ("name", "Pulse")]
+    ok = bool(pulses) and all(is_(_kwarg(c, 2, "phase"), "pulse.phase + (phase_ref if phase_ref else 0)") is not None or is_(_kwarg(c, 2, "phase"), "pulse.phase + phase_ref") is not None for c in pulses)
+    rep.check(ok, "FLOW", "_validate_and_adjust_pulse|phase=pulse.phase+phase_ref", "scheduled phase = programmed phase + reference", f"the returned pulse's phase is no longer pulse.phase + phase_ref: {[sh(_kwarg(c, 2, 'phase'), 80) for c in pulses]}", E.where(vadj))
+    ok = all(_kwarg(c, 3, "post_phase_shift") == sym.Pattern("pulse.post_phase_shift").term for c in pulses) and bool(pulses)
+    rep.check(ok, "FLOW", "_validate_and_adjust_pulse|keeps-post_phase_shift", "the adjusted pulse keeps the programmed post_phase_shift", "the adjusted pulse no longer carries pulse.post_phase_shift", E.where(vadj))
+    pb = arg(c_ap[-1], 2, "phase_barrier_ts")
+    rep.check(ref_comp(pb, "last_time"), "FLOW", "Sequence._add|barriers-from-targets-last_time", "phase barriers = last_time of the targets", f"the phase barriers are no longer the last_time of the last slot's targets in the channel's basis: {sh(pb, 200)}", E.where(add, c_ap[-1].node))
     # same basis for ref and barriers and the post shift
     bases = set()
-    for n in own_nodes(add):
-        if isinstance(n, ast.Subscript) and norm(n.value) == "self._basis_ref":
-            bases.add(norm(n.slice))
-    rep.check(bases == {"basis"}, "FLOW", "Sequence._add|single-basis", "all phase bookkeeping indexes _basis_ref[basis] of the channel", f"_add indexes _basis_ref with {sorted(bases)}", E.where(add))
+    for l in own:
+        for t in (l.target, l.value):
+            for x in sym.subterms(t) if t is not None else ():
+                if x[0] == "idx" and x[1] == ("attr", ("name", "self"), "_basis_ref"):
+                    bases.add(x[2])
+    rep.check(bases == {basis}, "FLOW", "Sequence._add|single-basis", "all phase bookkeeping indexes _basis_ref[basis] of the channel", f"_add indexes _basis_ref with {[sh(b, 60) for b in bases]}", E.where(add))
     # update_last_used(new slot tf) for qubit in last.targets, after add_pulse
-    ok = False
-    for n in own_nodes(add):
-        if isinstance(n, ast.For) and norm(n.iter) == "last.targets":
-            for s in ast.walk(n):
-                if isinstance(s, ast.Call) and isinstance(s.func, ast.Attribute) and s.func.attr == "update_last_used":
-                    v = av(E, add, s.args[0])
-                    ok = any(r.endswith("_last().tf") for r in v.roots) and n.lineno > c_ap.lineno
-    rep.check(ok, "FLOW", "Sequence._add|update_last_used(new-slot-end)", "each target's last_used is advanced to the new pulse's end", "last_used is no longer advanced to the end of the newly added pulse for each target", E.where(add))
-    c_ps = calls_to(E, add, ps)
-    ok = False
-    for _n, e in c_ps:
-        c = e.node
-        v = av(E, add, c.args[0])
-        tg = [a for a in c.args[1:] if isinstance(a, ast.Starred)]
-        bs = next((k.value for k in c.keywords if k.arg == "basis"), None)
-        ok = "pulse.post_phase_shift" in v.roots and len(tg) == 1 and norm(tg[0].value) == "last.targets" and bs is not None and norm(bs) == "basis"
-    rep.check(ok, "FLOW", "Sequence._add|post_phase_shift-applied-to-targets", "_phase_shift(post_phase_shift [- drift], *last.targets, basis=basis)", "the post-phase-shift is no longer applied to the pulse's targets in the channel's basis", E.where(add))
+    ulu_calls = [l for l in own if l.kind == "call" and l.target is not None and l.target[0] == "attr" and l.target[2] == "update_last_used"]
+    ok = bool(ulu_calls)
+    for l in ulu_calls:
+        recv = is_(l.target[1], "self._basis_ref[Q_b][Q_q]")
+        ok = ok and recv is not None and recv["Q_b"] == basis and recv["Q_q"] == ("elem", ("attr", last, "targets")) and arg(l, 0) == ("attr", last, "tf") and own.index(l) > own.index(c_ap[-1])
+    rep.check(ok, "FLOW", "Sequence._add|update_last_used(new-slot-end)", "each target's last_used is advanced to the new pulse's end", "last_used is no longer advanced, for each target of the pulse, to the end of the channel's last slot read after add_pulse", E.where(add))
+    c_ps = [l for l in own if l.kind == "call" and l.target == ("attr", ("name", "self"), "_phase_shift")]
+    ok = bool(c_ps)
+    for l in c_ps:
+        a0 = arg(l, 0)
+        stars = [a for a in l.value[2][1:] if a[0] == "star"]
+        bs = arg(l, -1, "basis")
+        sched_pulse = arg(c_ap[-1], 0, "pulse")
+        ok = ok and a0 is not None and sym.contains(a0, ("attr", sched_pulse, "post_phase_shift")) and len(stars) == 1 and len(l.value[2]) == 2 and stars[0][1] == ("attr", last, "targets") and bs == basis and own.index(l) > own.index(c_ap[-1])
+    rep.check(ok, "FLOW", "Sequence._add|post_phase_shift-applied-to-targets", "_phase_shift(post_phase_shift [- drift], *last.targets, basis=basis)", "the post-phase-shift is no longer applied (after the pulse is added) to the pulse's targets in the channel's basis", E.where(add))
+    # the scheduler may re-create the pulse (phase-drift correction): it keeps every field but the phase
+    mn = E.method(SCHED, "make_next_pulse_slot")
+    for l in [l for l in S(E, mn).calls("Pulse") if l.fn == mn.short]:
+        got = {k: _kwarg(l.value, i, k) for i, k in enumerate(("amplitude", "detuning", "phase", "post_phase_shift"))}
+        ok = all(got[k] == ("attr", ("name", "pulse"), k) for k in ("amplitude", "detuning", "post_phase_shift"))
+        rep.check(ok, "FLOW", "make_next_pulse_slot|corrected-pulse-keeps-fields", "the drift-corrected pulse keeps amplitude, detuning and post_phase_shift of the given pulse", f"the pulse re-created in make_next_pulse_slot drops or changes a field: { {k: sh(v, 40) for k, v in got.items()} }", E.where(mn, l.node))
     # _phase_shift increments every id
-    ok = False
-    for n in own_nodes(ps):
-        if isinstance(n, ast.For) and norm(n.iter) == "target_ids":
-            ok = any(isinstance(s, ast.Call) and isinstance(s.func, ast.Attribute) and s.func.attr == "increment_phase" and norm(s.args[0]) == "phi" for s in ast.walk(n))
-    rep.check(ok, "FLOW", "Sequence._phase_shift|increments-every-target", "for qubit in target_ids: increment_phase(phi)", "_phase_shift no longer increments the phase of every target", E.where(ps))
-    # multi-target guard
-    for f, var in ((add, "ph_refs"), (E.method(SEQ, "_target"), "phase_refs")):
-        ok = any(isinstance(n, ast.If) and norm(n.test).replace(" ", "") == f"len({var})!=1" and any(isinstance(x, ast.Raise) for x in n.body) for n in ast.walk(f.node))
-        rep.check(ok, "GUARD", f"{f.short}|single-phase-reference", "targets with different phase references are rejected", f"{f.short} no longer rejects targets with different phase references", E.where(f))
+    Sps = S(E, ps)
+    incs = [l for l in Sps.calls("increment_phase") if l.fn == ps.short]
+    ok = bool(incs)
+    for l in incs:
+        recv = is_(l.target[1], "self._basis_ref[basis][Q_q]")
+        ok = ok and recv is not None and recv["Q_q"][0] == "elem" and l.loops and recv["Q_q"][1] == l.loops[-1] and mentions(l.loops[-1], "_check_qubits_give_ids") and is_(arg(l, 0), "float(phi)") is not None
+    rep.check(ok, "FLOW", "Sequence._phase_shift|increments-every-target", "for qubit in target_ids: increment_phase(phi)", "_phase_shift no longer increments, by phi, the phase reference of every checked target in the given basis", E.where(ps))
+    # multi-target guard: the scheduling call happens only when the targets share one reference
+    tg = E.method(SEQ, "_target")
+    Stg = S(E, tg)
+    c_at = [l for l in Stg.log if l.fn == tg.short and l.kind == "call" and l.target is not None and l.target[0] == "attr" and l.target[2] == "add_target"]
+    for f, calls in ((add, c_ap), (tg, c_at)):
+        ok = bool(calls)
+        for l in calls:
+            m = any_lit(l, "len(Q_c) == 1")
+            ok = ok and m is not None and m["Q_c"][0] == "comp" and mentions(m["Q_c"][2], "last_phase")
+        rep.check(ok, "GUARD", f"{f.short}|single-phase-reference", "targets with different phase references are rejected", f"{f.short} no longer rejects targets with different phase references before scheduling", E.where(f))
     # Pulse.__init__ modulo
     pin = E.fn("pulser.pulse.Pulse.__init__")
-    mods = [n for n in own_nodes(pin) if isinstance(n, ast.BinOp) and isinstance(n.op, ast.Mod) and _is_two_pi(n.right)]
-    rep.check(len(mods) >= 2, "FLOW", "Pulse.__init__|phase-mod-2pi", "phase and post_phase_shift reduced modulo 2*pi", f"only {len(mods)} modulo-2*pi reductions in Pulse.__init__ (phase and post_phase_shift need one each)", E.where(pin))
+    sets = {}
+    for l in S(E, pin).calls("__setattr__"):
+        a = l.value[2]
+        if len(a) == 3 and a[1][0] == "const":
+            sets[a[1][1]] = a[2]
+    for l in S(E, pin).logged("store"):
+        if l.target is not None and l.target[0] == "attr" and l.target[1] == ("name", "self"):
+            sets[l.target[2]] = l.value
+    ok = all(k in sets and is_(sets[k], MOD2PI) is not None for k in ("phase", "post_phase_shift"))
+    rep.check(ok, "FLOW", "Pulse.__init__|phase-mod-2pi", "phase and post_phase_shift reduced modulo 2*pi", f"Pulse.__init__ stores phase={sh(sets.get('phase'), 60)}, post_phase_shift={sh(sets.get('post_phase_shift'), 60)}: both must be reduced modulo 2*pi", E.where(pin))
     # the per-basis reference table is initialised once: every `_basis_ref[b] = {...}` is guarded by `b not in self._basis_ref`
-    from ..absval import abstractor as _abs
-
     n_init = 0
-    for f in E.cls(SEQ).methods.values():
-        for g in f:
-            abf = None
-            for n in own_nodes(g):
-                if isinstance(n, ast.Assign) and isinstance(n.targets[0], ast.Subscript) and norm(n.targets[0].value) == "self._basis_ref":
+    for fs in E.cls(SEQ).methods.values():
+        for g in fs:
+            if g.kind == "overload" or "_basis_ref" not in norm(g.node):
+                continue
+            for l in S(E, g, inline=False).logged("store"):
+                if l.fn == g.short and l.target is not None and l.target[0] == "idx" and l.target[1] == ("attr", ("name", "self"), "_basis_ref"):
                     n_init += 1
-                    abf = abf or _abs(E.flow(g))
-                    key = norm(n.targets[0].slice)
-                    dnf = abf.enclosing_conditions(n)
-                    ok = all(any(l.atom is not None and l.atom.rel == "NotIn" and "self._basis_ref" in l.atom.rhs.roots and norm(n.targets[0].slice) in l.text for l in c) for c in dnf) and dnf != [[]]
-                    rep.check(ok, "GUARD", f"{g.short}|basis-ref-initialised-once|{key}", "phase references of a basis are created only if the basis has none yet", f"`{norm(n)[:70]}` in {g.short} is not guarded by `{key} not in self._basis_ref`: declaring another channel on the same basis would reset every accumulated phase reference and barrier", E.where(g, n))
+                    key = l.target[2]
+                    guard = sym.mk_cmp("NotIn", key, ("attr", ("name", "self"), "_basis_ref"))
+                    rep.check(guard in sym.conj_of(l.cond), "GUARD", f"{g.short}|basis-ref-initialised-once|{sh(key, 40)}", "phase references of a basis are created only if the basis has none yet", f"`self._basis_ref[{sh(key, 40)}] = ...` in {g.short} is not guarded by `{sh(key, 40)} not in self._basis_ref`: declaring another channel on the same basis would reset every accumulated phase reference and barrier", E.where(g, l.node))
     if n_init < 2:
         rep.error(f"only {n_init} initialisations of _basis_ref found (expected 2)")
     # EOM drift bookkeeping: the drift window starts where the buffer starts --
     # after the fall time iff enable_eom waits for it (include_fall_time == not _skip_wait_for_fall)
-    en = E.method(SCHED, "enable_eom")
     for mname in ("enable_eom_mode", "modify_eom_setpoint"):
-        m = E.method(SEQ, mname)
-        c_en = one_call(E, m, en)
-        skip = next((k.value for k in c_en.keywords if k.arg == "_skip_wait_for_fall"), None)
-        skips = isinstance(skip, ast.Constant) and skip.value is True
-        flag = None
-        for n in own_nodes(m):
-            if isinstance(n, ast.Call) and (dotted(n.func) or "") == "_PhaseDriftParams":
-                ti = next((k.value for k in n.keywords if k.arg == "ti"), None)
-                if isinstance(ti, ast.Call) and isinstance(ti.func, ast.Attribute) and ti.func.attr == "get_duration":
-                    kw = next((k.value for k in ti.keywords if k.arg == "include_fall_time"), None)
-                    flag = bool(isinstance(kw, ast.Constant) and kw.value is True)
-        rep.check(flag is not None and flag == (not skips), "FLOW", f"Sequence.{mname}|drift-window-starts-with-buffer", f"drift start uses include_fall_time={not skips} because enable_eom is called with _skip_wait_for_fall={skips}",
-                  f"in {mname} the phase-drift window starts at get_duration(include_fall_time={flag}) while the buffer is added with _skip_wait_for_fall={skips}: the drift accumulated between the two instants is not corrected", E.where(m))
+        m_ = E.method(SEQ, mname)
+        Sm = S(E, m_)
+        en = [l for l in Sm.log if l.fn == m_.short and l.kind == "call" and l.target is not None and l.target[0] == "attr" and l.target[2] == "enable_eom"]
+        dp = [l for l in Sm.log if l.fn == m_.short and l.kind == "call" and l.target == ("name", "_PhaseDriftParams")]
+        if not en or not dp:
+            raise AnalysisError(f"anchor: {mname} no longer calls enable_eom / _PhaseDriftParams")
+        skip = arg(en[-1], -1, "_skip_wait_for_fall")
+        skips = skip == ("const", True)
+        ti = arg(dp[-1], -1, "ti")
+        mt = is_(ti, "self.get_duration(channel, include_fall_time=Q_f)") or (is_(ti, "self.get_duration(channel)") and {"Q_f": ("const", False)})
+        flag = mt["Q_f"] == ("const", True) if mt and mt["Q_f"][0] == "const" else None
+        rep.check(flag is not None and flag == (not skips) and (skip is None or skip[0] == "const"), "FLOW", f"Sequence.{mname}|drift-window-starts-with-buffer", f"drift start uses include_fall_time={not skips} because enable_eom is called with _skip_wait_for_fall={skips}",
+                  f"in {mname} the phase-drift window starts at {sh(ti, 80)} while the buffer is added with _skip_wait_for_fall={sh(skip)}: the drift accumulated between the two instants is not corrected", E.where(m_))
     rep.floor("FLOW", 16)
     rep.floor("GUARD", 4)
     return {"phase_writes": n_w}
+
+
+def _kwarg(call, index: int, name: str):
+    for k, v in call[3]:
+        if k == name:
+            return v
+    return call[2][index] if index < len(call[2]) else None
